@@ -207,6 +207,7 @@ def impl_trace(case):
         k = op[0]
         ok = True
         tok = None
+        skip = False
         try:
             if k == "new":
                 objs.append(AugmentedGraph() if op[1] == "a" else AugmentedPAG())
@@ -218,6 +219,10 @@ def impl_trace(case):
                     H = objs[op[1]].copy()
                     objs.append(H)
                     kinds.append(kinds[op[1]])
+                elif cur[op[1]].ss and op[2] >= 2:
+                    # fixed names ('S', i): the outcome depends on the unspecified names of the
+                    # S-nodes already there -> not executed by either side
+                    skip = True
                 else:
                     from pywhy_graphs.algorithms.multidomain import add_all_snode_combinations
                     H, _ = add_all_snode_combinations(objs[op[1]], op[2])
@@ -261,15 +266,17 @@ def impl_trace(case):
         except Exception:
             ok = False
         cur = observe()
-        status.append("ok" if ok else "err")
+        status.append("skip" if skip else ("ok" if ok else "err"))
         canon.append([o.canon() for o in cur])
-        raw.append("|".join(o.raw() for o in cur))
-        conc.append(tok or op_token(op))
+        if not skip:  # the spec decider sees the executed calls only
+            raw.append("|".join(o.raw() for o in cur))
+            conc.append(tok or op_token(op))
     return {"status": status, "canon": canon, "raw": raw, "concrete": conc}
 
 
 def valid_line(tr):
-    return "c20v ops=%s st=%s tr=%s" % (";".join(tr["concrete"]), "".join("1" if s == "ok" else "0" for s in tr["status"]),
+    return "c20v ops=%s st=%s tr=%s" % (";".join(tr["concrete"]),
+                                        "".join("1" if s == "ok" else "0" for s in tr["status"] if s != "skip"),
                                         ";".join(tr["raw"]))
 
 
@@ -548,7 +555,9 @@ def run(ctx):
     ev.assumptions = ["set_f_node and removal of ordinary (target) nodes are never generated (outside the claim)",
                       "edges among ordinary nodes are abstracted in the model; their accept/reject status is not compared",
                       "names of augmented nodes are not compared (validated as fresh via the model-free StepOK decider)",
-                      "class-level state is reset at the start of every history (fresh process)"]
+                      "class-level state is reset at the start of every history (fresh process)",
+                      "add_all_snode_combinations is executed only on graphs without S-nodes (or n < 2): it uses fixed names, "
+                      "so its outcome otherwise depends on the unspecified names of the existing S-nodes"]
     cases = list(gen_cases(ctx))
     models = C.lean_batch([model_line(c["ops"]) for c in cases])
     trs = C.pmap(_impl_safe, cases, chunksize=128)
